@@ -33,7 +33,7 @@ inductive BatchFn | each (f : Fn) | rev | sumall
 deriving Repr
 inductive Comb | count | sum | min | max | minT | maxT | distinctSet | topK (k : Nat)
   /-- user combiners with non-`Option` accumulators (`Model/UserCombiners.lean`) -/
-  | uSumMod (m : Int) | uUnion | uMaxAbs
+  | uSumMod (m : Int) | uUnion | uMaxAbs | uLast
 deriving Repr
 
 def natToDec (n : Nat) : String := toString n
@@ -151,6 +151,7 @@ def Comb.toCombiner : Comb → VCombiner
   | .uSumMod m => userSumMod m
   | .uUnion => userUnion
   | .uMaxAbs => userMaxAbs
+  | .uLast => userLast
 
 /-! ## steps -/
 
